@@ -15,10 +15,10 @@ CLAIMS = {
         'design_ref': 'DESIGN.md section 5, C01',
     },
     'C03': {
-        'text': "As C01, on built-in values, commented values, subclass instances and pretty_call objects: the oracle compares ast.dump across all layout settings of each value and checks every line's indentation is a multiple of indent; C03.nests_are_indent (the only nest the container printers build uses ctx.indent).",
-        'note': 'value-level end-to-end theorem (reader . pformatM = id / token invariance) is not proved yet: the claim rests on C04.sound_pformat (unconditional) for the engine, C02 for the splitter, the listed syntactic lemmas about the printer model, the model=code correspondence on SDoc streams, and the CPython oracle run on every implementation output',
-        'technique': 'Lean 4 proof (engine) + differential correspondence + ast oracle',
-        'design_ref': 'DESIGN.md section 5, C03',
+        'text': "Lean theorem C03.layout_invariant: for every well-formed value (all built-ins, subclass wrappers, call-style printers, comments and trailing comments anywhere, truncation / depth limits, sorted dicts) two pformat calls differing only in width, ribbon_width and indent emit the same code tokens up to TEq (implicit concatenation of adjacent literals, parentheses around split literals); C03.output_tokens gives the tokens explicitly (canonW, a function of the value and of depth / max_seq_len / sort only); any_layout_tokens extends it to every layout the reference semantics allows. Built from Tok.ctoks_lay (token invariance over Lay), Tok.evalStr_tokens (the string evaluator, via C02.lines_join / unescape_escape), Tok.toDocW_ok (all printers) and C04.sound_pformat. The spec tokenizer and canonW are validated against CPython's tokenize on every run (section tokens). Correspondence as C01 on built-in values, commented values, subclass instances and pretty_call objects; the oracle compares ast.dump across all layout settings of each value and checks every line's indentation is a multiple of indent; C03.nests_are_indent.",
+        'note': "the theorem is about code tokens (comments dropped, literals decoded), TEq's parenthesis rule is context-free, and 'every output line is indented by a multiple of indent' is checked by the oracle only; trusted: Lean kernel, the hand-written model tied by the SDoc-stream correspondence, the token spec tied to tokenize by the tokens section",
+        'technique': 'Lean 4 proof (token invariance across all layouts, end to end on the model) + differential correspondence + ast / tokenize oracle',
+        'design_ref': 'DESIGN.md section 5, value level / token invariance',
     },
     'C08': {
         'text': 'C08.wrapper_seq / wrapper_int / wrapper_shape: in the model a subclass instance prints as a call of the class around exactly the document of the underlying built-in value; the model has no input for __repr__/__str__ overrides. Correspondence on instances of 36 generated subclasses (9 bases x plain / __repr__ / __str__ / both) + IntEnum in 6 nesting contexts x layouts; oracle: eval reconstructs class and value. F6, F7, F17 repaired.',
